@@ -409,3 +409,87 @@ PROPS['C06'] = dict(
     trusted=['spec/layout_sem.py'],
     bounded=PROPS['C02']['bounded'],
 )
+
+
+# ------------------------------------------------------------------------------------------------ C12 / C13
+def _dev_harnesses(tier):
+    import device_feat
+    return device_feat.harness_names(tier)
+
+
+def witnesses_c12(tier, seed):
+    import device_tab
+    rows = device_tab.parse_table(replay.REPO)
+    decl = {}
+    for dev, what, tv, dv, fn in device_tab.pairs(replay.REPO):
+        decl.setdefault(dev, {})[what.split(' ')[0]] = dv
+    names = sorted(rows)
+    if tier == 'quick':
+        rnd = random.Random(seed or 5)
+        names = sorted(set(rnd.sample(names, 12) + ['ATtiny10', 'ATtiny20', 'ATmega2560', 'ATmega103', 'ATmega48']))
+    jobs, meta = [], []
+    for n in names:
+        r = rows[n]
+        cap = dict(flash=decl.get(n, {}).get('flash_size', r['flash_size']), ee=decl.get(n, {}).get('eeprom_size', r['eeprom_size']),
+                   ram=decl.get(n, {}).get('ram_size', r['ram_size']))
+        for mem, at, over in (('flash', '.org %d\nnop\n' % (cap['flash'] - 1), '.org %d\nnop\n' % cap['flash']),
+                              ('eeprom', '.eseg\n.byte %d\n' % cap['ee'], '.eseg\n.byte %d\n' % (cap['ee'] + 1)),
+                              ('ram', '.dseg\n.byte %d\n' % cap['ram'], '.dseg\n.byte %d\n' % (cap['ram'] + 1))):
+            jobs.append('build\n.device %s\n%s' % (n, at)); meta.append((n, mem, 'at capacity', 'ok', cap))
+            jobs.append('build\n.device %s\n%s' % (n, over)); meta.append((n, mem, 'one above', 'err', cap))
+    extra = [('unknown_device', 'build\n.device ATnothing\nnop\n', 'err'), ('second_device', 'build\n.device ATmega8\n.device ATmega16\nnop\n', 'err'),
+             ('default_sizes', 'build\nnop\n', 'ok'), ('ram_filling_extent', 'build\n.device ATmega48\n.dseg\n.byte 10\n.org 0x120\n.byte 3\n', 'ok')]
+    jobs += [e[1] for e in extra]
+    res = replay.run_jobs(jobs, timeout_per_job=30)
+    out = []
+    for (n, mem, where, want, cap), job, r in zip(meta, jobs, res):
+        ok = (r.get('status') == want)
+        if ok and want == 'ok':
+            ok = (r['flash_size'] == rows[n]['flash_size'] and r['eeprom_size'] == rows[n]['eeprom_size'] and r['ram_size'] == rows[n]['ram_size'])
+            if mem == 'ram':
+                ok = ok and r['ram_filling'] == cap['ram']
+        out.append(WitnessResult('capacity:%s:%s:%s' % (n, mem, where), job, ok, dict((k, r.get(k)) for k in ('status', 'flash_size', 'eeprom_size', 'ram_size', 'ram_filling', 'err')), want, 'build/'))
+    for (name, job, want), r in zip(extra, res[len(meta):]):
+        ok = r.get('status') == want
+        if name == 'default_sizes':
+            ok = ok and (r['flash_size'], r['eeprom_size'], r['ram_size']) == (4194304, 65536, 8388608)
+        if name == 'ram_filling_extent':
+            ok = ok and r['ram_filling'] == 0x123 - 0x100
+        out.append(WitnessResult(name, job, ok, dict((k, r.get(k)) for k in ('status', 'flash_size', 'eeprom_size', 'ram_size', 'ram_filling', 'err')), want, 'build/'))
+    return out
+
+
+PROPS['C12'] = dict(
+    level_text='Proof: (Verus) build_from_parsed verbatim: Ok iff the three passes are Ok and code <= 2*flash, eeprom <= eeprom_size, '
+               'ram_filling <= ram_size of the context\'s device (no overflow, no truncation), reported sizes are the device\'s; pass 1 '
+               'stops at the same capacities and ram_filling = end of data - RAM start (unit PASS1); 246 generated obligations: every table '
+               'row is in range and equals each figure its shipped part file declares; (Kani) Device::new defaults.',
+    level_note='the `.device` arm of Directive::parse (lookup, single-selection rule) is bound by witnesses only unless unit DIR is claimed; '
+               '`.byte <expression>` silently reserving nothing is pinned by the test suite (known finding)',
+    technique='Verus contract on the extracted limit check + generated table/part-file obligations + Kani harness for Device::new',
+    verus=['build', 'devtab', 'pass1'],
+    kani=[dict(slice='dev', harnesses=lambda tier: [h for h in _dev_harnesses(tier) if h[0] == 'dev_new'])],
+    witnesses=witnesses_c12,
+    functions=['builder::build_from_parsed', 'builder::pass1::{build_pass_1, pass_1_internal, next_address}', 'Device::new', 'DEVICES rows (generated)'],
+    explanation='fits() in contracts/build.vspec is the oracle (exactly at capacity builds, one unit more fails).',
+    assumptions=['the three passes appear as stubs whose outcome is an uninterpreted function of (input, tables, device); their own contracts are units PASS1/PASS2',
+                 'Directive::Device arm: witnesses only (unknown device, second device)', 'includes/*def.inc are parsed by spec/device_tab.py (regex over .equ lines)'],
+    trusted=['spec/device_tab.py'],
+    bounded=['capacity witnesses: quick: 17 devices, thorough: all 54, x 3 memories x {at capacity, one above} through build_str'],
+)
+PROPS['C13'] = dict(
+    level_text='Proof: (Kani/CBMC, complete) Device::check_operation && check_operands, extracted verbatim, equals the flag oracle for all '
+               '2^16 flag sets (a superset of the 54 table rows) x all 114 mnemonics x all operand forms; (Verus) pass 2 consults the gate '
+               'before encoding and fails the build when it refuses (fold oracle step2); process() observes the device only through the '
+               'Avr8l flag (its slice context exposes nothing else), so every admitted instruction encodes as with no device.',
+    level_note='the flag sets of the table rows themselves are the reference of the property; NoEspm removes nothing this assembler knows',
+    technique='Kani contract harness on the extracted gate against a generated flag oracle + Verus call-site obligation in pass 2',
+    verus=['pass2', 'encv'],
+    kani=[dict(slice='dev', harnesses=lambda tier: [h for h in _dev_harnesses(tier) if h[0] == 'dev_gate'])],
+    functions=['Device::check_operation', 'Device::check_operands', 'Device::allow', 'Device::is_avr8l', 'pass_2_internal (gate call)', 'instruction::process'],
+    explanation='spec/device_feat.py: flag -> removed instructions/forms, from the property text.',
+    assumptions=['R11: BTreeSet<DisabledOptions> modelled as a 16-bit mask keyed by flag name',
+                 'independence of process() from all flags but Avr8l is by construction of the slice context (a new device access in process() '
+                 'makes the slice fail to compile -> UNDECIDED, not a silent pass)'] + ENC_ASSUME[:1],
+    trusted=['spec/device_feat.py'],
+)
